@@ -1247,7 +1247,9 @@ class H3Connection:
 
         # process unblocked streams
         for stream_id in unblocked_streams:
-            stream = self._stream[stream_id]
+            stream = self._stream.get(stream_id)
+            if stream is None or not stream.blocked:
+                continue
 
             # resume the HEADERS or PUSH_PROMISE frame the stream was blocked on
             http_events.extend(
